@@ -473,7 +473,8 @@ def run(ctx, out, budget):
 
 M6_WITNESS = [
     {"types": [("x.C", "uima.cas.TOP"), ("x.B", "x.C"), ("x.A", "x.B")], "feats": {}},
-    {"types": [("x.C", "uima.tcas.Annotation"), ("x.B", "x.C"), ("x.A", "uima.tcas.Annotation")], "feats": {}},
+    # (x.A is created FIRST in the second input: `get_types()` follows creation order, and with x.A last both orders succeed)
+    {"types": [("x.A", "uima.tcas.Annotation"), ("x.C", "uima.tcas.Annotation"), ("x.B", "x.C")], "feats": {}},
 ]
 
 
